@@ -287,3 +287,5 @@ def run(ctx):
     r2(ctx)
     r3(ctx)
     r4(ctx)
+    from . import C04
+    C04.r2(ctx)   # finished / crashed software is never polled again: crash and bounce throw the old runtime (and its leftover tasks) away
